@@ -4,6 +4,7 @@ import (
 	"fmt"
 	"io"
 	"math"
+	"math/big"
 	"os"
 	"runtime"
 	"strconv"
@@ -479,7 +480,13 @@ func baseToNumber(L *LState) int {
 				str = str[2:]
 			}
 			if v, err := strconv.ParseUint(str, base, LNumberBit); err != nil {
-				L.Push(LNil)
+				if f, ok := parseLongInteger(str, base); !ok {
+					L.Push(LNil)
+				} else if neg {
+					L.Push(-LNumber(f))
+				} else {
+					L.Push(LNumber(f))
+				}
 			} else if neg {
 				L.Push(-LNumber(v))
 			} else {
@@ -490,6 +497,35 @@ func baseToNumber(L *LState) int {
 		L.Push(LNil)
 	}
 	return 1
+}
+
+// parseLongInteger reads a string of digits of the given base that does not fit in 64 bits: the
+// nearest float64 (+Inf if out of range), as parseNumber gives for a long hexadecimal numeral.
+func parseLongInteger(str string, base int) (float64, bool) {
+	if len(str) == 0 {
+		return 0, false
+	}
+	for i := 0; i < len(str); i++ {
+		// no sign or "_" here, which big.Int.SetString would let through
+		d := 36
+		switch c := str[i]; {
+		case '0' <= c && c <= '9':
+			d = int(c - '0')
+		case 'a' <= c && c <= 'z':
+			d = int(c-'a') + 10
+		case 'A' <= c && c <= 'Z':
+			d = int(c-'A') + 10
+		}
+		if d >= base {
+			return 0, false
+		}
+	}
+	n, ok := new(big.Int).SetString(str, base)
+	if !ok {
+		return 0, false
+	}
+	f, _ := new(big.Float).SetInt(n).Float64()
+	return f, true
 }
 
 func baseToString(L *LState) int {
